@@ -10,7 +10,10 @@ pub struct NodeStreamW { pub _opaque: u64 }
 #[derive(Clone, Copy)]
 pub enum SparseRestoreW { No, ByContent }
 pub struct RestoreOptionsW { pub sparse: Option<SparseRestoreW> }
-pub struct RestorePlanW { pub names: Vec<PathBufW>, pub file_lengths: Vec<u64>, pub r: RestoreInfoW, pub restore_size: u64, pub hardlink_candidates: HardlinksW }
+// (statistics of the plan: numbers only; carried so that code reading them stays inside the model)
+pub struct FileDirStatsW { pub restore: u64, pub unchanged: u64, pub verified: u64, pub modify: u64, pub additional: u64 }
+pub struct RestoreStatsW { pub files: FileDirStatsW, pub dirs: FileDirStatsW }
+pub struct RestorePlanW { pub names: Vec<PathBufW>, pub file_lengths: Vec<u64>, pub r: RestoreInfoW, pub restore_size: u64, pub matched_size: u64, pub stats: RestoreStatsW, pub hardlink_candidates: HardlinksW }
 impl RestorePlanW {
     // RestorePlan::to_packs: the packs of all blobs that are not taken from an existing file (iterator chain, not under contract)
     #[verifier::external_body]
